@@ -149,6 +149,15 @@ class SMCSampler(MCMCSampler):
             if self.adaptive_min_step and beta_star < 1.0:
                 min_step = min_step * (1 - beta_prev) / (1 - beta_star)
             beta = max(beta_star, beta_prev + min_step)
+            if beta <= beta_prev:
+                # The ESS target cannot be met by any step larger than the
+                # tolerance (e.g. extremely peaked likelihood). Force the
+                # smallest resolvable step so the schedule always progresses.
+                logger.warning(
+                    "Could not find a temperature step that meets the target "
+                    "efficiency; advancing beta by the tolerance."
+                )
+                beta = beta_prev + beta_tolerance
             beta = min(beta, 1.0)
         return beta, min_step
 
